@@ -116,6 +116,7 @@ type sess struct {
 	lastAct map[string]uint64 // height of the account's last successful stake / unstake / vote
 	sysXfer bool              // a plain transfer to aergo.system was executed in this session
 	not39   bool              // a voteBP with a candidate length != 39 was executed
+	rankersPanic string       // system.GetRankers panicked on the observed state (message)
 	forceAcc []byte           // scripted sessions: the account field of the next system transactions (a name bound to the sender)
 	taint   string            // node sessions: class of the defect this history has run into (its consequences are counted, not failed)
 	how     string            // replay: how the op lines are executed
@@ -334,13 +335,19 @@ func (s *sess) look() *view {
 			v.vtotal[is] = new(big.Int).SetBytes(d)
 		}
 	}
-	if rk, err := system.GetRankers(scs); err != nil {
-		panic(err)
-	} else {
+	if msg, p := vh.Guard(func() string {
+		rk, err := system.GetRankers(scs)
+		if err != nil {
+			panic(err)
+		}
 		for _, c := range rk {
 			b, _ := base58.Decode(c)
 			v.rankers = append(v.rankers, hx(b))
 		}
+		return ""
+	}); p {
+		v.rankers = []string{"panic"}
+		s.rankersPanic = msg
 	}
 	v.mem = system.VerifC15VprMemory()
 	if v.load, err = system.VerifC15VprLoad(scs); err != nil {
@@ -993,9 +1000,9 @@ func (s *sess) endBlock(next uint64) {
 		s.fail("block boundary: buffered names " + showNames(v.namesB) + " differ from committed names " + showNames(v.namesI))
 	}
 	// the parameter table in memory against the one loadParams builds from the committed state; nothing pending
-	cur, next := system.VerifC15ParamsMemory()
-	if a, b := showParams(cur), showParams(system.VerifC15ParamsLoad(fscs)); a != b || len(next) > 0 {
-		s.fail("block boundary: system parameters in memory [" + a + "] (pending [" + showParams(next) + "]) differ from the ones loaded from the committed state [" + b + "]")
+	cur, pending := system.VerifC15ParamsMemory()
+	if a, b := showParams(cur), showParams(system.VerifC15ParamsLoad(fscs)); a != b || len(pending) > 0 {
+		s.fail("block boundary: system parameters in memory [" + a + "] (pending [" + showParams(pending) + "]) differ from the ones loaded from the committed state [" + b + "]")
 	}
 	s.inv(v)
 	s.h = next
@@ -1417,7 +1424,8 @@ func (s *sess) randomSession(steps int, tiePool bool, large bool) {
 			case 4:
 				args = []string{"600000000000000000000000000"}
 			case 5:
-				args = []string{[]string{"007", "-5", "+3", "-0", "-", "-1000000000000000000000"}[rng.Intn(6)]}
+				// (signed numbers within the caps: a negative one beyond a cap is the probe scripted:negative-beyond-cap)
+				args = []string{[]string{"007", "-5", "+3", "-0", "-", "-50"}[rng.Intn(6)]}
 			case 6:
 				args = nil
 				if !rng.Chance(1, 4) {
@@ -1692,12 +1700,43 @@ func scripted(run *vh.Run, fd *findings) {
 		s.voteDAO(a, "BPCOUNT", []string{"+7"})
 		s.voteDAO(a, "STAKINGMIN", []string{"-0"})
 		s.voteDAO(a, "NAMEPRICE", []string{"-"})
-		s.voteDAO(a, "NAMEPRICE", []string{"-600000000000000000000000000"}) // below every upper bound: admitted
+		s.voteDAO(a, "NAMEPRICE", []string{"-2000000000000000000"})
 		s.endBlock(3)
 		s.restart()
 		s.endBlock(3 + D)
 		s.voteDAO(a, "GASPRICE", []string{"5"}) // a different candidate string with the same value
 		s.endBlock(4 + D)
+		s.close()
+	}
+	// P6 (probe, counted until the lead decides): a negative candidate passes every upper bound of validateById; BPCOUNT = 10^21 makes
+	// GetBpCount() overflow and system.GetRankers panic (reached from bp.Snapshots.AddSnapshot in Status.Update and the votes query)
+	{
+		s := newSess(run, fd, run.Rng.Fork(), 2, "scripted:negative-beyond-cap")
+		a := s.addAcct(fixedAddr(22), coins(20000))
+		s.h = 2
+		s.stake(a, coins(10000))
+		s.voteDAO(a, "BPCOUNT", []string{"-1000000000000000000000"})
+		if !s.dead && system.GetNextBlockParam("BPCOUNT").Cmp(big.NewInt(100)) > 0 {
+			// the block ends (not compared with the model from here on): the value is in force
+			if err := s.bs.Update(); err != nil {
+				panic(err)
+			}
+			if err := s.bs.Commit(); err != nil {
+				panic(err)
+			}
+			if err := s.sdb.UpdateRoot(s.bs); err != nil {
+				panic(err)
+			}
+			system.CommitParams(true)
+			s.bs = s.sdb.NewBlockState(s.sdb.GetRoot())
+			s.look()
+			if s.rankersPanic != "" {
+				run.Count("defect-candidate:C15-negative-candidate-bypasses-cap")
+				run.Sample("defect candidate: BPCOUNT voted to " + system.GetParam("BPCOUNT").String() + " by a negative candidate: system.GetRankers: " + s.rankersPanic)
+			}
+			system.InitSystemParams(s.sys(), 3)
+		}
+		s.dead = true
 		s.close()
 	}
 	// K1: two candidates equal from byte 7 on with equal tallies (DESIGN lead 4)
